@@ -22,6 +22,7 @@ LN2 = UF["log"](sym.rv(2.0))
 LN10 = UF["log"](sym.rv(10.0))
 POWDOM = fn("POWDOM", R, R, B)
 NODIV0 = fn("NODIV0", Ref, B)   # no division by a literal Constant(0) anywhere in the tree (A7)
+SYN = fn("SYN", Ref, B)         # LPX: the syntactic class LP extraction is specified on; "degree <= 1" may only be reported inside it
 WF = fn("WF", Ref, B)           # well-formed scalar expression tree (precondition vocabulary, see unfold_wf)
 
 
@@ -108,6 +109,11 @@ class Spec:
         unfold(self, "nd0", r, ())
         return NODIV0(r)
 
+    def syn(self, v):
+        r = self.ref(v)
+        unfold(self, "syn", r, ())
+        return SYN(r)
+
     def wf(self, v):
         r = self.ref(v)
         unfold(self, "wf", r, ())
@@ -159,7 +165,7 @@ class Spec:
 
 
 # ------------------------------------------------------------------------------------------- machinery
-TABLES: dict[str, dict[str, list]] = {"den": {}, "dv": {}, "dom": {}, "occ": {}, "deg": {}, "wf": {}, "nd0": {}}
+TABLES: dict[str, dict[str, list]] = {"den": {}, "dv": {}, "dom": {}, "occ": {}, "deg": {}, "wf": {}, "nd0": {}, "syn": {}, "cov": {}}
 
 
 def rule(fam: str, *kinds: str):
@@ -190,6 +196,13 @@ def unfold(sp: Spec, fam: str, r, params: tuple) -> None:
     # objects allocated on this path: their children are known objects, unfold them too
     for child in path.ghost.get("children", {}).get(str(r), []):
         unfold(sp, fam, child, params)
+    # children of opaque operator nodes: request their instances too (parked until their class is learned)
+    if kind == "BinaryOp":
+        l, rr, _a = kids(sp, r)
+        unfold(sp, fam, l, params)
+        unfold(sp, fam, rr, params)
+    elif kind == "UnaryOp":
+        unfold(sp, fam, kids(sp, r)[2], params)
 
 
 def ops_of(sp: Spec, r, table: list[str]) -> list[str]:
@@ -542,6 +555,41 @@ def _(sp, r):
 def _(sp, r):
     _, _, a = kids(sp, r)
     sp.ip.path.assume(NODIV0(r) == NODIV0(a))
+
+
+# ------------------------------------------------------------------------------------------- SYN: the LP-recognisable class
+@rule("syn", "Constant", "Variable")
+def _(sp, r):
+    sp.ip.path.assume(SYN(r))
+
+
+@rule("syn", "Parameter")
+def _(sp, r):
+    sp.ip.path.assume(z3.Not(SYN(r)))
+
+
+@rule("syn", "BinaryOp")
+def _(sp, r):
+    S, K, p = sp.S, sp.K, sp.ip.path
+    l, rr, _ = kids(sp, r)
+    rc = K.is_kind(rr, "Constant")
+    n = S.F("value", R)(rr)
+    for op in ops_of(sp, r, BINARY_OPS):
+        g = guard_op(sp, r, op)
+        if op in ("+", "-", "*"):
+            p.assume(z3.Implies(g, SYN(r) == z3.And(SYN(l), SYN(rr))))
+        elif op == "/":
+            p.assume(z3.Implies(g, SYN(r) == z3.And(SYN(l), rc)))
+        else:
+            # x**0 is the constant 1 whatever x is (the extraction routines never look into the base then)
+            p.assume(z3.Implies(g, SYN(r) == z3.And(rc, z3.IsInt(n), n >= 0, z3.Or(n == 0, SYN(l)))))
+
+
+@rule("syn", "UnaryOp")
+def _(sp, r):
+    _, _, a = kids(sp, r)
+    for op in ops_of(sp, r, UNARY_OPS):
+        sp.ip.path.assume(z3.Implies(guard_op(sp, r, op), SYN(r) == (SYN(a) if op == "neg" else z3.BoolVal(False))))
 
 
 def install(registry):
